@@ -302,6 +302,15 @@ def gen_segments(ctx, cases):
             path = (b'/lib64/ld-linux-x86-64.so.2' * 9)[:n] if n % 2 else ('/élib/ld.so'.encode() * 30)[:n]
             path = path.decode('utf-8', errors='ignore').encode()
             cases.append(('interp', [cfg, BASE + rng.choice([0, 3]), path, True, rng.choice([0, 4]), rng.getrandbits(8)]))
+            # p_filesz is a free header field: the path is the C string at p_offset whatever the segment's
+            # declared size (larger: bytes after the terminator lie inside the segment; smaller: the string
+            # runs past it).  7th element = p_filesz - (len(path) + 1)
+            extra = rng.choice([1, 2, 7, 40])
+            cases.append(('interp', [cfg, BASE + rng.choice([0, 3]), path, True, extra + rng.choice([0, 4]),
+                                     rng.getrandbits(8), extra]))
+            if n >= 2:
+                cases.append(('interp', [cfg, BASE, path, True, rng.choice([0, 4]), rng.getrandbits(8),
+                                         -rng.randint(1, n)]))
         cases.append(('interp', [cfg, BASE, b'/lib/ld.so.1', False, 0, 3]))
 
 
@@ -544,9 +553,11 @@ def evaluate(ctx, cases):
             cfg, ptype, off, size, length, seed = a
             w.plan = Img(cfg, [], [(ptype, 4, off, 0x1000, 0x2000, size, size + 7, 1)], length=length, seed=seed)
         elif kind == 'interp':
-            cfg, off, path, term, tail, seed = a
+            cfg, off, path, term, tail, seed = a[:6]
+            fsz_delta = a[6] if len(a) > 6 else 0
             blob = path + (b'\0' if term else b'')
-            w.plan = Img(cfg, [], [(3, 4, off, 0x1000, 0x2000, len(blob), len(blob) + 3, 1)], blobs=[(off, blob)],
+            w.plan = Img(cfg, [], [(3, 4, off, 0x1000, 0x2000, len(blob) + fsz_delta, len(blob) + fsz_delta + 3, 1)],
+                         blobs=[(off, blob)],
                          length=off + len(blob) + tail, seed=seed)
         elif kind == 'addr':
             cfg, phgap, phextra, segs, start, size = a
